@@ -232,10 +232,24 @@ theorem formula_mass_spec (f : Formula) (h : f.WF) :
       ((f.occurrences.map fun p => p.2 * stdWeight p.1).sum - f.denote 0 * electronMass) :=
   formulaMass_render f h
 
-/-- the same through `Species.from_formula(render f)` with its default phases -/
-theorem species_mass_spec (f : Formula) (h : f.WF) :
+/-- the same through `Species.from_formula(render f, phases)` for ANY `phases` drawn from the suffix vocabulary the
+    parser knows (`(s) (l) (g) (aq)`, in any order, any subset) such that the written suffix, if any, is one of the phases
+    or `(aq)` — the hypotheses of C13's `species_spec`. (A suffix the caller did not declare is not stripped and is then
+    read as a state token or lands in the charge token: outside this theorem.) -/
+theorem species_mass_spec (f : Formula) (h : f.WF) (phases : List (List Char))
+    (hsub : ∀ s ∈ phases, s ∈ suffixesL)
+    (hmem : ∀ s, f.suffix = some s → s ∈ phases ∨ s = ['(', 'a', 'q', ')']) :
+    speciesMass phases f.renderStr = .ok (occurrenceMass f) :=
+  speciesMass_render_gen f h phases hsub hmem
+
+/-- the default phases `("(s)", "(l)", "(g)")` satisfy those hypotheses for every well-formed formula -/
+theorem species_mass_default (f : Formula) (h : f.WF) :
     speciesMass defaultPhases f.renderStr = .ok (occurrenceMass f) :=
   speciesMass_render f h
+
+/-- `Solute.from_formula(render f).mass` (deprecated class: `Substance` plus the `precipitate` flag) -/
+theorem solute_mass_spec (f : Formula) (h : f.WF) : soluteMass f.renderStr = .ok (occurrenceMass f) :=
+  soluteMass_render f h
 
 -- (when `formulaMass s` returns at all — parser accepts and keys in the table — is the lemma `formulaMass_ok_iff` in
 --  Proofs/PeriodicFormula.lean: it unfolds the model's `match`, the real content is C01's)
@@ -262,6 +276,15 @@ theorem hydrate_additive (f : Formula) (ps : List Part) (p : Part) (hp : f.parts
       formulaMass f.renderStr = .ok (mA + p.mult * mB) :=
   ⟨_, _, formulaMass_render _ hA, formulaMass_render _ hB, by
     rw [formulaMass_render f hf, occurrenceMass_snoc f ps p hp]⟩
+
+/-- **Additive over ALL hydrate parts**: for a well-formed formula whose parts are also well-formed on their own,
+    `mass(f) = Σ over the parts p of p.mult · mass(bare p.terms) − charge·mₑ` (leading count 1 when omitted), each
+    `mass(bare p.terms)` being what `Substance.from_formula` returns for that part written alone. -/
+theorem hydrate_additive_all (f : Formula) (hf : f.WF) (hB : ∀ p ∈ f.parts, (bareFormula p.terms).WF) :
+    (∀ p ∈ f.parts, formulaMass (bareFormula p.terms).renderStr = .ok (occurrenceMass (bareFormula p.terms))) ∧
+    formulaMass f.renderStr = .ok
+      ((f.parts.map fun p => p.mult * occurrenceMass (bareFormula p.terms)).sum - f.denote 0 * electronMass) :=
+  ⟨fun p hp => formulaMass_render _ (hB p hp), by rw [formulaMass_render f hf, occurrenceMass_parts f]⟩
 
 /-- **Scales with a group multiplier**: `mass((X)n) = n·mass(X)` for any bracket kind, any (integer or decimal) count. -/
 theorem group_scales (b : ChemModel.Formula.Br) (body : Terms) (n : ChemModel.Formula.Cnt)
@@ -375,8 +398,9 @@ theorem groups_reference :
     exact hall g hg z hz
   · rw [hother g hg] at hz; cases hz
 
-/-- guard: the literal `"(aq)"` that `speciesMass` appends to the phases is the tuple `Species.from_formula` adds in the
-    source (`suffixes = tuple(phases) + ("(aq)",)`, regenerated into Gen), and the default phases are the generated ones -/
+/-- guard: the extra suffixes `speciesMass` appends to the phases (`speciesExtraSuffixes`, computed from the generated
+    constants: `suffixes = tuple(phases) + ("(aq)",)` in the source of `Species.from_formula`) are exactly `"(aq)"`, and the
+    default phases of the model are the generated ones -/
 theorem species_extra_suffix_guard :
     speciesExtraSuffixes = [['(', 'a', 'q', ')']] ∧ speciesPhases.map String.toList = defaultPhases := by
   decide +kernel
@@ -461,5 +485,10 @@ example : mixtureFractions [("H2O", 2), ("SO4-2", 1)]
 example : mixtureFractions [] = .ok (some []) ∧ mixtureFractions [("Hx", 1)] = .error (.parse .parse) := by decide +kernel
 example : groupMembers 17 = [9, 17, 35, 53, 85, 117] ∧ groupMembers 3 = [] := by decide +kernel
 example : formulaMass "Hx" = .error (.parse .parse) := by decide +kernel
+-- `hydrate_additive_all` / generalised `species_mass_spec` / `solute_mass_spec`: hypotheses satisfiable
+example : ∀ p ∈ exSoda.parts, (bareFormula p.terms).WF := by decide +kernel
+example : speciesMass [['(', 'a', 'q', ')']] "Na(aq)" = .ok (2298976928 / 100000000) ∧
+    speciesMass [] "Na(aq)" = .ok (2298976928 / 100000000) ∧ soluteMass "Cs(s)" = .ok (13290545196 / 100000000) := by
+  decide +kernel
 
 end ChemModel.C14
